@@ -42,7 +42,7 @@ def main():
             os.remove(os.path.join(scratch, "zz_seed_demo_test.go"))
             return ("ok " in out and "FAIL" not in out), out
         # demo.sh exits non-zero when the defect is present
-        rc, out = sh("cp %s zz_demo.sh; bash zz_demo.sh > zz_demo.out 2>&1; echo rc=$?; tail -5 zz_demo.out; rm -f zz_demo.sh zz_demo.out" % demo_sh, cwd=scratch)
+        rc, out = sh("cp %s zz_demo.sh; bash zz_demo.sh $PWD > zz_demo.out 2>&1; echo rc=$?; tail -5 zz_demo.out; rm -f zz_demo.sh zz_demo.out" % demo_sh, cwd=scratch)
         return "rc=0" in out, out
 
     ok, out = run_demo()
